@@ -18,6 +18,7 @@ type ModSet struct {
 	Top           bool
 	Locks         bool // may acquire/release a sync lock (transitively)
 	TopWhy        string
+	StoreRef      string            // (call-site copy only) the one pre-existing variable store an EC callee may write: its env argument's Store; "" = none
 	EC            bool              // calls a value of an EC-framed function type (effects bounded by the EC frame)
 	FreshTop      bool              // unknown set of arrays, but only fresh objects are written
 	Arrays        map[string]string // name -> elem sort (as passed to Ctx.arr)
@@ -80,6 +81,7 @@ type ModAnalysis struct {
 	ECArrays         map[string]string      // array name -> elem sort
 	Verified         map[*ssa.Function]bool // all FRAME obligations of the function were discharged in this run
 	allFns           []*ssa.Function
+	storeArrays      map[string]bool
 	ecFuncTypes      map[string]bool
 	pureFuncTypes    map[string]bool
 	FinalAssumptions []string
@@ -1227,4 +1229,31 @@ func (ma *ModAnalysis) defaultFrameOf(fn *ssa.Function) string {
 		return ""
 	}
 	return ma.sp.DefaultFrame[shortPkg(pk.Pkg.Path())]
+}
+
+// IsStoreArray: one of the heap arrays of variable stores (Env.Store : map[SymHash]PanObject).
+func (ma *ModAnalysis) IsStoreArray(name string) bool {
+	if ma.storeArrays == nil {
+		ma.storeArrays = map[string]bool{}
+		if t, err := ma.w.LookupType("map[uint64]object.PanObject", "object"); err == nil {
+			mt := t.(*types.Map)
+			ma.storeArrays[ma.sorts.MapHasT(mt)] = true
+			ma.storeArrays[ma.sorts.MapValT(mt)] = true
+			ma.storeArrays[ma.sorts.MapLenT(mt)] = true
+		}
+	}
+	return ma.storeArrays[name]
+}
+
+// isECFuncValue: the function is converted somewhere to one of the EC-framed function types
+// (e.g. a props closure passed to f(...) as object.BuiltInFunc) - or simply has such a signature.
+func (ma *ModAnalysis) isECFuncValue(fn *ssa.Function) bool {
+	for t := range ma.ecFuncTypes {
+		if lt, err := ma.w.LookupType(t, "object"); err == nil {
+			if types.Identical(lt.Underlying(), fn.Signature) || types.AssignableTo(fn.Signature, lt) {
+				return true
+			}
+		}
+	}
+	return false
 }
